@@ -1,13 +1,13 @@
 SPECIFICATION Spec
 CONSTANTS
   MaxLen = 512
-  D1Den = 1
-  SeedDen = 2
-  SampleDen = 3
+  D1Den = 3
+  SeedDen = 5
+  SampleDen = 11
   SampleRes = 0
   Depth2On = TRUE
-  PrimeMax = 40000
-  BlueMax = 1100
+  PrimeMax = 20000
+  BlueMax = 600
   BothKinds = TRUE
 INVARIANT TreeInv
 CHECK_DEADLOCK FALSE
